@@ -97,8 +97,22 @@ ExpAfter(ev, k, visited, inc(_)) ==
 
 HasAfter(m) == m.k \in {"r", "w", "n", "m", "mw", "rs", "rsm", "dr", "cs", "csm"}
 
+\* ---------------------------------------------------------------------
+\* Unconstrained joins: every member is optional ("m", "mw") or negated ("n",
+\* "bnot"), so the join visits every index of the index space (ev.top of them)
+\* except the negated ones.  The harness counts all items and records those
+\* that can be told apart: the ones in which an optional member is present
+\* and, when a member yields the index itself, the ones at the indices ev.watch.
+Unconstrained(ev) == \A k \in 1..Len(Mem(ev)) : ~Constrains(Mem(ev)[k])
+UncResult(ev) ==
+  LET neg == UNION {Negated(Mem(ev)[k]) : k \in 1..Len(Mem(ev))}
+      may == UNION {IF Mem(ev)[k].k \in {"m", "mw"} THEN {Mem(ev)[k].vals[j][1] : j \in 1..Len(Mem(ev)[k].vals)} ELSE {} : k \in 1..Len(Mem(ev))}
+      watch == IF \E k \in 1..Len(Mem(ev)) : Mem(ev)[k].k = "bnot" THEN SeqToSet(ev.watch) ELSE {}
+  IN [rec |-> (may \cup watch) \ neg, count |-> ev.top - Cardinality(neg)]
+
 Check(ev) ==
-  LET res == Result(ev)
+  LET unc == Unconstrained(ev) /\ "count" \in DOMAIN ev
+      res == IF unc THEN UncResult(ev).rec ELSE Result(ev)
       order == SortedSeq(res)
       exp == [j \in 1..Len(order) |-> ExpItem(ev, order[j])]
       par == ev.variant \in {"par", "split"}
@@ -136,6 +150,8 @@ Check(ev) ==
                     IN u # want}
   IN IF ev.variant = "skip" THEN {} ELSE
        (IF ev.panic # "" THEN {F(prop, "panic during join", ev.panic)} ELSE {})
+  \cup (IF ev.panic = "" /\ unc /\ ev.count # UncResult(ev).count
+        THEN {F(prop, "an unconstrained join delivers one item per index that no negated member excludes (delivered, expected)", <<ev.count, UncResult(ev).count>>)} ELSE {})
   \cup (IF ev.panic = "" /\ itemsBad THEN {F(prop, "delivered items differ from the join of the members (got, expected)", <<got, exp>>)} ELSE {})
   \cup (IF ev.panic = "" THEN {F(prop, "contents after the join (member, got, expected)", <<k, ev.after[k], ExpAfter(ev, k, visited, inc)>>) : k \in afterBad} ELSE {})
   \cup (IF ev.panic = "" THEN {F("C06", "lending get by entity (entity, alive, got)", ev.gets[j]) : j \in getsBad} ELSE {})
